@@ -45,7 +45,17 @@ def run(ctx):
         Ls, Lc, Lk = eh.names_of(d)
         um = {s.name: e for s, e in d.state_model.items()}
         rational = eh.is_rational(d)
-        for pt in pts:
+        # consecutive evaluation points on the same filter that differ in ONE coordinate only (values -1, -2, 1, 2)
+        from fractions import Fraction as _F
+        base = dict(pts[0])
+        sweep = []
+        for grp, names in (("state", [x.name for x in d.state]), ("control", [x.name for x in d.control])):
+            for nme in names[:2]:
+                for val in (-1, -2, 2, 1):
+                    q = {"dt": base["dt"], "cal": cal, "state": dict(base["state"]), "control": dict(base["control"])}
+                    q[grp][nme] = _F(val)
+                    sweep.append(q)
+        for pt in pts + sweep:
             pt = dict(pt, cal=cal)
             sub = eh.subs_map(d, pt)
             st, ct = eh.state_obj(ekf, pt), eh.control_obj(ekf, pt)
@@ -66,7 +76,12 @@ def run(ctx):
                 except Exception as e:
                     ctx.fail(f"jacobian-raises:{which.split(':')[0]}:{fk.exc_kind(e)}", f"{which} Jacobian raises {e!r}"[:300], case)
                     continue
-                want = oracle()
+                try:
+                    want = oracle()
+                except (ValueError, TypeError, OverflowError, ZeroDivisionError):
+                    # the symbolic derivative has no finite value here (e.g. d/dx of a root at 0): the property is stated for
+                    # points where the model is differentiable
+                    ctx.count("not_differentiable_here"); continue
                 got_all[which] = got
                 if got.shape != tuple(shape) or not eh.mat_close(got, want):
                     kind = "rect" if shape[0] != shape[1] else "square"
